@@ -331,7 +331,9 @@ class C06(Check):
         if sig is not None:
             sig['delivery'] = 'incremental' if incremental else 'whole'
             sig['family'] = e.family.name
-            if depth == 1:
+            if depth == 1 or os.environ.get('VERIF_C06_DEEP'):
+                if depth > 1:
+                    sig['depth'] = 'deep'
                 violations.append({'signature': sig, 'detail': {
                     'entry': case['entry'], 'doc': doc.name, 'op': op, 'src': src,
                     'lazy': _short(got), 'eager': _short(ref)}})
